@@ -17,7 +17,7 @@ Is(a) == pos <= N /\ Ev.a = a
 Obs(act) == act /\ pos' = pos + 1 /\ tid' = tid
 Sil(act) == act /\ pos' = pos /\ tid' = tid
 TNext ==
-  \/ Is("produce") /\ Obs(Produce) /\ queue'[Len(queue')] = Ev.m
+  \/ Is("produce") /\ Obs(Produce) /\ produced'[Len(produced')] = Ev.m
   \/ Sil(Pop) \/ Sil(SCheck)
   \/ Is("write") /\ Obs(SWrite) /\ Len(written') = Len(written) + 1 /\ written'[Len(written')] = <<Ev.c, Ev.m>>
   \/ Is("write_failed") /\ Obs(SWrite) /\ spc' = "eclose" /\ sst' = Ev.c
